@@ -40,6 +40,10 @@ CLAIMED = {
    text="Lean theorems over a model of pac_type.go/signature_data.go/client_info.go: acceptance holds exactly when the table parses, every buffer lies inside the data, the four mandatory buffers are present and decodable, the declared type is supported and the server signature equals the RFC checksum (usage 17) of the zeroed copy; the signature field never influences the zeroed copy; two inputs differing only in signature bytes are never both accepted; unsupported declared types are rejected; acceptance of the same signature for different data exhibits a checksum collision; first buffer of each kind wins; the group-SID rule is complete and sound. Tied to Go by re-signing the sample PACs with the Lean issuer model under all five types and flipping every bit, removing/duplicating/permuting buffers, corrupting table fields, overlapping signature buffers.",
    note=CRYPTO_NOTE + "NDR decoding of KERB_VALIDATION_INFO (jcmturner/rpc) is a parameter of the model (its verdict per buffer is taken from the real decoder, run in a memory-limited child because it can exhaust memory on corrupted counts: that is a C04 matter).",
    technique="Lean 4 proof (decision logic, zeroing lemmas, list induction) + exhaustive bit-flip differential run with an independent signer", design="5/C19"),
+ "C12": dict(
+   text="Lean theorems over a model of sendToKDC/dialSend*: if some endpoint on a permitted transport answers correctly and every other endpoint only refuses, closes early or is silent, the caller gets the answer of an answering endpoint, for every order of both (independently shuffled) KDC walks and every relation of request size to udp_preference_limit; no delivering endpoint gives a communication error; a KRB-ERROR from the first delivering endpoint is returned as that error, response-too-big over UDP falls back to TCP; every endpoint is contacted at most once per transport; the unrepaired shadowed-variable branch is refuted by witness. Tied to Go by scripted loopback endpoints (TCP and UDP on one port) and the real client AS exchange: all 36 assignments x 3 limits for one KDC, samples for 2-3 KDCs, comparing result class, error code, answering endpoint and contacted endpoints.",
+   note="net, the 5 s deadlines and the OS are outside the model (silent endpoints cost real time, so they are sampled in the quick tier); endpoints that refuse leave no trace, so their position in the walk is not observed (it does not influence the result).",
+   technique="Lean 4 proof (case analysis over the fallback logic, induction over the KDC walk) + differential fault enumeration on loopback", design="5/C12"),
  "C14": dict(
    text="Lean theorems over a model of keytab.go: Unmarshal reads every file an independent writer (MIT format) renders — holes, with/without 32-bit kvno, v1/v2, both byte orders — to exactly the written entries (reads_spec); Marshal equals that writer (marshal_is_render) hence round trip for both versions (roundtrip); GetEncryptionKey is sound, complete and prefers the newest match (lookup_*). All for unbounded sizes. The model is tied to the Go code by differential runs on rendered, re-marshalled, mutated files and present/near-miss lookups.",
    note="Model written by hand (Impl follows Unmarshal incl. the discarded parsePrincipal error); v1 byte order is the host's (little endian here). External: encoding/binary.",
